@@ -57,6 +57,30 @@ fn exec_encoder(plan: &Plan, st: &mut Stats) -> Result<(), Violation> {
             }
         }
     }
+    let (edit_nodes, edit_repeats) = (plan.get("edit_nodes"), plan.get("edit_repeats"));
+    if edit_nodes != 0 || edit_repeats != 0 {
+        for (k, h) in map.hit_objects.iter_mut().enumerate() {
+            if let HitObjectKind::Slider(sl) = &mut h.kind {
+                if edit_nodes != 0 && (k as i64 + edit_nodes) % 2 == 0 {
+                    match edit_nodes {
+                        1 => sl.node_samples.clear(),
+                        2 => sl.node_samples.truncate(1),
+                        3 => sl.node_samples.truncate(2),
+                        _ => {
+                            if let Some(n) = sl.node_samples.last_mut() {
+                                n.clear();
+                            }
+                        }
+                    }
+                    st.inc("ops.slider-node-samples-edited-before-encode");
+                }
+                if edit_repeats != 0 {
+                    sl.repeat_count = (sl.repeat_count + edit_repeats as i32).clamp(0, 12);
+                    st.inc("ops.slider-repeats-edited-before-encode");
+                }
+            }
+        }
+    }
     let mut sliders = 0u64;
     let mut node_times: Vec<f64> = Vec::new();
     let mut lifetimes: Vec<(f64, f64)> = Vec::new();
@@ -196,9 +220,11 @@ fn params_of(op: &Op) -> Params {
 }
 
 fn admissible(p: &Params) -> bool {
-    // bounded work: at most 20k ticks per span; playable ranges only
-    let len = p.total.min(100_000.0);
-    let td = p.tick_dist.clamp(0.0, len.max(0.0));
+    // bounded work: at most 20k ticks per span (multiples of the tick distance before the cut-off); playable ranges only
+    let full = p.total.min(100_000.0);
+    let td = p.tick_dist.clamp(0.0, full.max(0.0));
+    let len = (full - 10.0 * p.vel).clamp(0.0, full.max(0.0));
+    let len = if td > 0.0 && len <= td { td } else { len };
     p.start.is_finite() && p.dur.is_finite() && p.dur >= 0.0 && p.vel.is_finite() && p.vel >= 0.0 && p.total.is_finite() && p.total >= 0.0 && !p.tick_dist.is_nan() && p.tick_dist >= 0.0 && (td == 0.0 || len / td <= 20_000.0) && p.spans >= 1 && f64::from(p.spans) * (if td == 0.0 { 1.0 } else { (len / td).max(1.0) }) <= 300_000.0
 }
 
@@ -305,6 +331,23 @@ fn gen_params(rng: &mut Rng) -> [f64; 6] {
     // rarely: nothing travels (velocity 0) or a span takes no time (every event of the span shares one timestamp)
     let vel = if rng.chance(1, 40) { 0.0 } else { vel };
     let dur = if rng.chance(1, 40) { 0.0 } else if vel == 0.0 { 100.0 + 400.0 * rng.unit() } else { dur };
+    let (mut total, mut td, mut vel) = (total, td, vel);
+    if rng.chance(1, 10) {
+        // the same slider in other units: every length-like parameter scaled by a power of two (exact), down to the
+        // microscopic — the number and the relative placement of the ticks do not depend on the unit
+        let s = 2f64.powi(-(1 + rng.below(220) as i32));
+        total *= s;
+        vel *= s;
+        if td.is_finite() {
+            td *= s;
+        }
+    } else if rng.chance(1, 25) {
+        // no tick fits (the cut-off swallows the whole span) while the tick distance is as small as a float can be:
+        // whatever is sized or counted from length / tick distance must cope
+        total = *rng.pick(&[5.0, 50.0, 0.5, 1e-3, 300.0]);
+        vel = total / 10.0 * *rng.pick(&[1.0, 1.5, 100.0]);
+        td = *rng.pick(&[1e-300, 5e-324, 1e-16, 1e-30, 2.2250738585072014e-308, total * 1e-12]);
+    }
     [start, dur, vel, td, total, spans]
 }
 
@@ -409,6 +452,13 @@ impl Scenario for C20 {
             p.data = text.into_bytes();
             if rng.chance(1, 3) {
                 p.set("edit_velocity", 1 + rng.below(6) as i64);
+            }
+            if rng.chance(1, 3) {
+                // more edits through public fields: per-node sample lists cut short or cleared, repeat count changed
+                p.set("edit_nodes", 1 + rng.below(4) as i64);
+            }
+            if rng.chance(1, 4) {
+                p.set("edit_repeats", *rng.pick(&[1i64, 2, 3, -1]));
             }
             return p;
         }
